@@ -2,7 +2,7 @@
  *   lock/lock_shared/upgrade -> adaptive_wait_on_address -> [timed spin] -> r1::wait_on_address(this, pred, WRITER|READER_CONTEXT)
  *   unlock/unlock_shared/downgrade/try_lock_shared back-off -> r1::notify_by_address(this, ctx) | notify_by_address_all(this)
  * NT threads; OPi = role: 0 reader, 1 writer, 2 reader->upgrade, 3 writer->downgrade, 4 starts as the writer and releases,
- * 5 starts as a reader and releases (pre-states built by the real try_lock/try_lock_shared before the threads start).
+ * 5 starts as a reader and releases, 6 starts as the writer, downgrades, then releases (pre-states built by the real try_lock/try_lock_shared before the threads start).
  * Oracles: reader/writer exclusion; an upgrade reported as atomic had no intervening writer; blocked-state oracle (lost wake-up:
  * a thread asleep in wait_on_address while every other thread is done or asleep too); at the end: state word 0, address-waiter slot
  * empty, slot mutex free, nobody left in the kernel futex queue. */
@@ -39,8 +39,8 @@ u8 _ZN3tbb6detail2d021timed_spin_wait_untilIZNS0_2d18rw_mutex7upgradeEvEUlvE_EEb
   VP_POLL(_ZNK3tbb6detail2d118delegated_functionIZNS1_8rw_mutex7upgradeEvEUlvE_EclEv, &c)
 }
 #define THR(s) vp_thr_rw_##s
-#define PRE(i, op) if ((op) == 4 || (op) == 5) { int ok = vp_rw_prelock(&RW, (op) == 4); VP_ASSERT(ok, "pre-state: try_lock on a compatible state"); \
-    if ((op) == 4) { VP_ASSERT(writers == 0 && readers == 0, "pre-state"); writers++; wr_entries++; } else { VP_ASSERT(writers == 0, "pre-state"); readers++; } entered[i] = 1; }
+#define PRE(i, op) if ((op) == 4 || (op) == 5 || (op) == 6) { int ok = vp_rw_prelock(&RW, (op) != 5); VP_ASSERT(ok, "pre-state: try_lock on a compatible state"); \
+    if ((op) != 5) { VP_ASSERT(writers == 0 && readers == 0, "pre-state"); writers++; wr_entries++; } else { VP_ASSERT(writers == 0, "pre-state"); readers++; } entered[i] = 1; }
 int main(void) {
   vp_rw_init(&RW); vp_aw_init(&SLOT);
   PRE(0, OP0) PRE(1, OP1)
